@@ -30,7 +30,7 @@ def code_source():
     node = InterfaceType("Node", [Field("id", NonNullType(ID), description="the id")], resolve_type=_resolve_node, description="a node")
     color = EnumType("Color", [EnumValue("RED", 1, description="red"), EnumValue("BLUE", "blue", deprecation_reason="no blue")], description="colors")
     inp = InputObjectType("In", [InputField("f", NonNullType(Int), description="f"), InputField("some_value", String, default_value="s", python_name="sv"),
-                                 InputField("g", color, default_value=1)], description="input")
+                                 InputField("g", color, default_value=1), InputField("nul", String, default_value=None)], description="input")
     a = ObjectType("A", [
         Field("id", NonNullType(ID)), Field("first_name", String, resolver=_res_name, description="first name", python_name="first_name"),
         Field("n", ListType(NonNullType(Int)), deprecation_reason="no n"), Field("self_ref", lambda: a),
@@ -40,15 +40,18 @@ def code_source():
     q = ObjectType("Query", [
         Field("a", a, resolver=_res_a), Field("b", b, resolver=lambda *_, **__: {}), Field("u", u, resolver=_res_a), Field("node", node, resolver=_res_a),
         Field("echo_args", String, args=[Argument("in_value", inp, default_value={"f": 1, "some_value": "d"}, python_name="inv", description="arg"),
-                                         Argument("c", color, default_value="blue"), Argument("k", Int)], resolver=_res_echo),
+                                         Argument("c", color, default_value="blue"), Argument("k", Int),
+                                         Argument("nul", Int, default_value=None, description="defaults to null")], resolver=_res_echo),
     ])
     sub = ObjectType("Subscription", [Field("ticks", Int, subscription_resolver=_sub)])
-    tag = Directive("tag", ["FIELD_DEFINITION"], args=[Argument("v", Int, default_value=1)], description="a tag")
-    return Schema(q, subscription_type=sub, types=[a, b, u, node, color, inp], directives=[tag])
+    only = ObjectType("OnlyImpl", [Field("id", NonNullType(ID)), Field("w", Int, resolver=_default_b)], interfaces=[node], description="no field refers to this type")
+    loose = EnumType("Loose", [EnumValue("L", 0)], description="nothing refers to this type")
+    tag = Directive("tag", ["FIELD_DEFINITION"], args=[Argument("v", Int, default_value=1), Argument("w", Int, default_value=None)], description="a tag")
+    return Schema(q, subscription_type=sub, types=[a, b, u, node, color, inp, only, loose], directives=[tag])
 
 
-def sdl_source():
-    s = build_schema(S.render(S.base_record(dict(desc=True, dep=True, default=10, recursion=3))))
+def sdl_source(default=10):
+    s = build_schema(S.render(S.base_record(dict(desc=True, dep=True, default=default, recursion=3))))
     s.register_resolver("Query", "s", lambda *a, **k: "ok")
     s.register_default_resolver("B", _default_b)
     s.types["U"].resolve_type = _resolve_u
@@ -56,7 +59,11 @@ def sdl_source():
     return s
 
 
-SOURCES = (code_source, sdl_source)
+def sdl_source_null():
+    return sdl_source(3)            # the defaulted argument is written `= null`
+
+
+SOURCES = (code_source, sdl_source, sdl_source_null)
 
 
 def named(t):
@@ -232,7 +239,7 @@ def registry(schema):
             tuple(sorted((t, id(fn)) for t, fn in schema.default_resolvers.items())), id(schema.default_resolver))
 
 
-PROBES = ("{ a { id first_name n } b { b_value } u { __typename } echo_args(k: 1) }", "{ s }")
+PROBES = ("{ a { id first_name n } b { b_value } u { __typename } echo_args(k: 1) }", "{ s }", "{ s }")
 
 
 def probe(schema, src):
@@ -318,7 +325,7 @@ def _op_sequences(src: int, o1: int, a1: int, o2: int, a2: int, o3: int, a3: int
     pre: mut == 0 or o3 == -1
     pre: 0 <= o1 < 4 and -1 <= o2 < 4 and -1 <= o3 < 4 and (o3 == -1 or o2 >= 0)
     pre: 0 <= a1 < 256 and 0 <= a2 < 256 and 0 <= a3 < 256
-    pre: shard_of(o1 * 5 + o2 + 1)
+    pre: shard_of(o1 * 5 + o2 + 1 + a1 + src * 3)
     pre: thorough() or o3 == -1 or (o1 == o2 and o2 == o3 and o1 != 3)
     pre: vis_mask_in_tier(o1, a1, o2) and vis_mask_in_tier(o2, a2, o2) and vis_mask_in_tier(o3, a3, o2)
     post: _
@@ -387,7 +394,8 @@ def vis_mask_in_tier(o, a, o2) -> bool:
 CONDITIONS = [
     Cond(
         name="op_sequences", fn=_op_sequences, quick=200, thorough=1200, per_path=90, shards_quick=20, shards_thorough=20,
-        bound="2 source schemas (code-built with resolvers / default resolvers / type resolvers / subscription resolver / python names / defaults / descriptions / deprecations; SDL-built with registered resolvers) "
+        bound="3 source schemas (code-built with resolvers / default resolvers / type resolvers / subscription resolver / python names / defaults incl. explicit null defaults / descriptions / deprecations; SDL-built with registered resolvers, "
+              "once with an object default and once with a `= null` default) "
               "x every sequence of 1..3 operations from {clone, camel-case, extend with one of 6 documents, visibility with an 8-bit predicate (all 256 for a single transform in the thorough tier; <= 1 bit or all bits inside sequences)} applied to the SAME source (quick: sequences of length 3 only when all three operations are of the same kind) "
               "x 4 uses of each derived schema through the registration API (nothing / resolvers / default resolvers / subscription resolvers registered on it; for sequences of length <= 2): the source's elements, "
               "resolver registries, printed SDL and the answer to a probe query stay what they were",
